@@ -466,6 +466,8 @@ func (a *AndExpr) String() string {
 
 // NullableVisit recursively determines whether an object is nullable.
 func (a *AndExpr) NullableVisit(rules map[string]*Rule) bool {
+	// the operand is visited for its own sub-expressions' flags (InitialNames reads them)
+	a.Expr.NullableVisit(rules)
 	return true
 }
 
@@ -503,6 +505,8 @@ func (n *NotExpr) String() string {
 
 // NullableVisit recursively determines whether an object is nullable.
 func (n *NotExpr) NullableVisit(rules map[string]*Rule) bool {
+	// the operand is visited for its own sub-expressions' flags (InitialNames reads them)
+	n.Expr.NullableVisit(rules)
 	return true
 }
 
@@ -540,6 +544,8 @@ func (z *ZeroOrOneExpr) String() string {
 
 // NullableVisit recursively determines whether an object is nullable.
 func (z *ZeroOrOneExpr) NullableVisit(rules map[string]*Rule) bool {
+	// the operand is visited for its own sub-expressions' flags (InitialNames reads them)
+	z.Expr.NullableVisit(rules)
 	return true
 }
 
@@ -577,6 +583,8 @@ func (z *ZeroOrMoreExpr) String() string {
 
 // NullableVisit recursively determines whether an object is nullable.
 func (z *ZeroOrMoreExpr) NullableVisit(rules map[string]*Rule) bool {
+	// the operand is visited for its own sub-expressions' flags (InitialNames reads them)
+	z.Expr.NullableVisit(rules)
 	return true
 }
 
@@ -614,6 +622,8 @@ func (o *OneOrMoreExpr) String() string {
 
 // NullableVisit recursively determines whether an object is nullable.
 func (o *OneOrMoreExpr) NullableVisit(rules map[string]*Rule) bool {
+	// the operand is visited for its own sub-expressions' flags (InitialNames reads them)
+	o.Expr.NullableVisit(rules)
 	return false
 }
 
